@@ -1,5 +1,6 @@
 """C17 - rand31_r is Park-Miller (spec/Rand31.tla, harness/rand_drv.c)"""
 from vlib import *  # noqa
+from vlib import sh, REPO, HARNESS
 
 LEVEL = "exploration"
 RULE = ("TLC checks Carta(s) = ParkMiller(s) (Schrage form) and the range for ~295k structured states (all s < 2^16, every "
@@ -30,3 +31,15 @@ def run(run):
     run.extra["swept_states"] = (1 << 31) - 2
     sample_trace(run, tr, 4)
     run.add_sample(read_line(tr, n))
+    # the same source built for an ILP32 target (gcc -m32, freestanding): vectors validated by TLC, then all 2^31-2 states
+    # against Schrage's form (the specification's ParkMiller operator, 32-bit safe)
+    exe32 = run.path("rand32_drv")
+    rc, out = sh(["gcc", "-m32", "-O2", "-ffreestanding", "-nostdlib", "-static", "-fno-pie", "-no-pie", "-fno-stack-protector",
+                  "-fno-asynchronous-unwind-tables", "-I" + os.path.join(REPO, "include"), os.path.join(HARNESS, "rand32_drv.c"),
+                  os.path.join(REPO, "librfn/rand.c"), "-o", exe32], timeout=300)
+    if rc != 0:
+        raise Infra("ILP32 build failed:\n" + out[-2000:])
+    tr32 = exec_script(run, exe32, [], "", run.path("rand32.ndjson"), "ilp32 vectors+sweep", timeout=900)
+    check_trace(run, "ilp32-vectors+sweep", "TraceRand", "TraceRand.cfg", tr32, timeout=900)
+    run.evaluations += (1 << 31) - 2
+    run.extra["swept_states_ilp32"] = (1 << 31) - 2
